@@ -7,23 +7,26 @@ From Coq Require Import List Arith Bool NArith.
 From Core Require Import Base Kron Op OpProofs Algebra AlgebraProofs FieldBase C06_Inv C06_Proofs C06_Struct C06_Thms C06_Tsolve.
 Import ListNotations.
 
-(* on every direct path - structural rules (Product reversed, Kronecker and BlockDiag factor-wise, Diagonal, ScalarMul, Identity,
-   Permutation, Triangular), dense LU and Cholesky paths, the Unitary rule, at any nesting depth - the returned operator is a
-   well-formed operator of the same shape whose matrix is a two-sided inverse of the matrix the input represents *)
+(* on every dispatch path - structural rules (Product reversed, Kronecker and BlockDiag factor-wise, Diagonal, ScalarMul, Identity,
+   Permutation, Triangular), dense LU and Cholesky paths, the Unitary rule, the lazy CG / GMRES operators, at any nesting depth and
+   for every algorithm class incl. both branches of Auto - the returned operator is a well-formed operator of the same shape whose
+   matrix is a two-sided inverse of the matrix the input represents.  [ok] collects what the leaves must satisfy: non-zero scalars and
+   diagonal entries, a genuine permutation, the LAPACK specifications where a factorisation is called, and - only where an iterative
+   algorithm is selected - exactness of that solver on the operator it is applied to (properties C12 / C13). *)
 Theorem C06_inv_den : forall (R : Type) (RR : Ring R) (CR : CRing R) (FR : Field R)
   (gmres_amb : bool) (lu_o : nat -> fm -> (nat -> nat) * fm * fm) (chol_o : nat -> fm -> fm) (tinv_o : nat -> fm -> bool -> fm) (iter_o : itag -> op -> fm),
   tinv_ok tinv_o -> forall (e : op (R:=R)) (al : alg) (a : atree) (r : iop),
-  wf e = true -> is_sq e = true -> ok lu_o chol_o al e a -> inv gmres_amb lu_o chol_o al e a = IOk r -> direct r = true ->
+  wf e = true -> is_sq e = true -> ok lu_o chol_o iter_o al e a -> inv gmres_amb lu_o chol_o al e a = IOk r ->
   wf (to_op tinv_o iter_o r) = true /\ shape (to_op tinv_o iter_o r) = shape e /\
   inv2 (fst (shape e)) (den (to_op tinv_o iter_o r)) (den e).
 Proof. intros R RR CR FR g lu ch ti it TO e al a r. exact (inv_den g lu ch ti it TO e al a r). Qed.
 Print Assumptions C06_inv_den.
 
-(* the dense paths from the oracle specifications: inv(U) @ inv(L) @ inv(P) for P L U = A, inv(L^H) @ inv(L) for L L^H = A, the adjoint of a unitary operator *)
+(* the base rules from the oracle specifications (lazy CG / GMRES operator: from exactness of the solver): inv(U) @ inv(L) @ inv(P) for P L U = A, inv(L^H) @ inv(L) for L L^H = A, the adjoint of a unitary operator *)
 Theorem C06_dense_paths : forall (R : Type) (RR : Ring R) (CR : CRing R)
   (lu_o : nat -> fm -> (nat -> nat) * fm * fm) (chol_o : nat -> fm -> fm) (tinv_o : nat -> fm -> bool -> fm) (iter_o : itag -> op -> fm)
   (al : alg) (e : op (R:=R)) (a : atree) (r : iop),
-  tinv_ok tinv_o -> wf e = true -> is_sq e = true -> base_ok lu_o chol_o al e a -> base lu_o chol_o al e a = IOk r -> direct r = true ->
+  tinv_ok tinv_o -> wf e = true -> is_sq e = true -> base_ok lu_o chol_o iter_o al e a -> base lu_o chol_o al e a = IOk r ->
   good tinv_o iter_o r e.
 Proof. intros R RR CR. exact (@base_good R RR CR). Qed.
 Print Assumptions C06_dense_paths.
@@ -32,7 +35,7 @@ Print Assumptions C06_dense_paths.
 Theorem C06_solve_correct : forall (R : Type) (RR : Ring R) (CR : CRing R) (FR : Field R)
   (gmres_amb : bool) (lu_o : nat -> fm -> (nat -> nat) * fm * fm) (chol_o : nat -> fm -> fm) (tinv_o : nat -> fm -> bool -> fm) (iter_o : itag -> op -> fm),
   tinv_ok tinv_o -> forall (al : alg) (e : op (R:=R)) (a : atree) (X Y : arr),
-  wf e = true -> is_sq e = true -> ok lu_o chol_o al e a -> is_direct gmres_amb lu_o chol_o al e a -> nr X = fst (shape e) ->
+  wf e = true -> is_sq e = true -> ok lu_o chol_o iter_o al e a -> nr X = fst (shape e) ->
   solve gmres_amb lu_o chol_o tinv_o iter_o al e a X = Some Y ->
   nr Y = fst (shape e) /\ nc Y = nc X /\ feq (fst (shape e)) (nc X) (mmul (fst (shape e)) (den e) (dat Y)) (dat X).
 Proof. intros R RR CR FR. exact (@solve_correct R RR CR FR). Qed.
@@ -42,7 +45,7 @@ Print Assumptions C06_solve_correct.
 Theorem C06_inv_left_product : forall (R : Type) (RR : Ring R) (CR : CRing R) (FR : Field R)
   (gmres_amb : bool) (lu_o : nat -> fm -> (nat -> nat) * fm * fm) (chol_o : nat -> fm -> fm) (tinv_o : nat -> fm -> bool -> fm) (iter_o : itag -> op -> fm),
   tinv_ok tinv_o -> forall (al : alg) (e : op (R:=R)) (a : atree) (X Y : arr),
-  wf e = true -> is_sq e = true -> ok lu_o chol_o al e a -> is_direct gmres_amb lu_o chol_o al e a -> nc X = fst (shape e) ->
+  wf e = true -> is_sq e = true -> ok lu_o chol_o iter_o al e a -> nc X = fst (shape e) ->
   lsolve gmres_amb lu_o chol_o tinv_o iter_o al e a X = Some Y ->
   nr Y = nr X /\ nc Y = fst (shape e) /\ feq (nr X) (fst (shape e)) (mmul (fst (shape e)) (dat Y) (den e)) (dat X).
 Proof. intros R RR CR FR. exact (@inv_left_product R RR CR FR). Qed.
@@ -52,7 +55,7 @@ Print Assumptions C06_inv_left_product.
 Theorem C06_inv_transpose : forall (R : Type) (RR : Ring R) (CR : CRing R) (FR : Field R)
   (gmres_amb : bool) (lu_o : nat -> fm -> (nat -> nat) * fm * fm) (chol_o : nat -> fm -> fm) (tinv_o : nat -> fm -> bool -> fm) (iter_o : itag -> op -> fm),
   tinv_ok tinv_o -> forall (al : alg) (e : op (R:=R)) (a : atree) (r : iop) (sa : bool),
-  wf e = true -> is_sq e = true -> ok lu_o chol_o al e a -> inv gmres_amb lu_o chol_o al e a = IOk r -> direct r = true ->
+  wf e = true -> is_sq e = true -> ok lu_o chol_o iter_o al e a -> inv gmres_amb lu_o chol_o al e a = IOk r ->
   (sa = true -> symmetric (to_op tinv_o iter_o r)) ->
   let t := transpose sa (to_op tinv_o iter_o r) in
   wf t = true /\ shape t = shape e /\ inv2 (fst (shape e)) (den t) (fun i j => den e j i).
@@ -90,6 +93,6 @@ Proof. intros R RR FR. exact (@tsolve_ok R RR FR). Qed.
 Print Assumptions C06_triangular_solve_correct.
 
 (* the hypotheses are satisfiable on a non-trivial tree: (Diagonal (x) (3 * Permutation)) over the Gaussian rationals, any oracles *)
-Example C06_hypotheses_satisfiable : forall lu_o chol_o, wf ex_tree = true /\ is_sq ex_tree = true /\ ok lu_o chol_o AAuto ex_tree adef.
+Example C06_hypotheses_satisfiable : forall lu_o chol_o iter_o, wf ex_tree = true /\ is_sq ex_tree = true /\ ok lu_o chol_o iter_o AAuto ex_tree adef.
 Proof. exact ex_ok. Qed.
 Print Assumptions C06_hypotheses_satisfiable.
